@@ -274,6 +274,91 @@ def check_init_false(case: t.Any, ctx: Ctx) -> None:
                  f"x = {x!r}; into_data(x) = {d!r}; from_data of that: {str(y)[:200]}")
 
 
+# ---- a type served by a handler (class-level or call-level) ------------------------------------------------------------------------
+#
+# A third-party type converted by a custom handler (docs/using/advanced.md style: the converter reads the data form only) round-trips
+# like a built-in one wherever it sits - a plain field, Optional, a union with other members, a list of unions - whether the handler
+# comes from the dataclass (custom=) or from the call.
+
+_HM: t.Dict[str, t.Any] = {}
+HM_FIELDS = ['plain', 'optional', 'union', 'list-of-union', 'dict-of-optional']
+
+
+def hm_cases(shard: int, nshards: int) -> t.Iterator[t.Any]:
+    i = 0
+    for src in ('class', 'call', 'inherited'):
+        for field in HM_FIELDS:
+            for present in (True, False):
+                if i % nshards == shard:
+                    yield [src, field, present]
+                i += 1
+
+
+def check_handled_member(case: t.Any, ctx: Ctx) -> None:
+    import pane
+    from pane.converters import Converter
+    from pane.errors import ParseInterrupt, WrongTypeError
+    (src, field, present) = case
+    if 'Money' not in _HM:
+        class Money:
+            def __init__(self, amount: str, cur: str) -> None:
+                (self.amount, self.cur) = (amount, cur)
+
+            def __eq__(self, other: t.Any) -> bool:
+                return type(other) is Money and (self.amount, self.cur) == (other.amount, other.cur)
+
+            def __repr__(self) -> str:
+                return f"Money({self.amount!r}, {self.cur!r})"
+
+        class MoneyConv(Converter):      # type: ignore
+            def expected(self, plural: bool = False) -> str:
+                return "amounts like '12.50 EUR'"
+
+            def try_convert(self, val: t.Any) -> t.Any:
+                if not isinstance(val, str) or len(val.split(' ')) != 2:
+                    raise ParseInterrupt()       # (the data form only: a Money instance is not data)
+                return Money(*val.split(' '))
+
+            def collect_errors(self, val: t.Any) -> t.Any:
+                return None if isinstance(val, str) and len(val.split(' ')) == 2 else WrongTypeError(self.expected(), val)
+
+            def into_data(self, val: t.Any) -> t.Any:
+                return f"{val.amount} {val.cur}"
+        _HM['Money'] = Money
+        _HM['handlers'] = {Money: MoneyConv()}
+    Money = _HM['Money']
+    H = _HM['handlers']
+    ftype = {'plain': Money, 'optional': t.Optional[Money], 'union': t.Union[int, Money, None], 'list-of-union': t.List[t.Union[int, Money]],
+             'dict-of-optional': t.Dict[str, t.Optional[Money]]}[field]
+    fdata: t.Any = {'plain': '1.00 EUR', 'optional': '1.00 EUR' if present else None, 'union': '2 USD' if present else 5,
+                    'list-of-union': ['3 CHF', 4] if present else [4], 'dict-of-optional': {'a': '5 SEK', 'b': None} if present else {}}[field]
+    key = (src, field)
+    if key not in _HM:
+        Base = type('HmBase', (pane.PaneBase,), {'__annotations__': {}}, **({'custom': H} if src == 'inherited' else {}))
+        _HM[key] = type('Invoice', (Base,), {'__annotations__': {'number': int, 'f': ftype}}, **({'custom': H} if src == 'class' else {}))
+    T = _HM[key]
+    custom = H if src == 'call' else None
+    ctx.label(f"handler:{src}", field)
+    ctx.nontrivial(True)
+    data = {'number': 7, 'f': fdata}
+    ident = f"class Invoice(number: int, f: {field}) with the Money handler from the {src}; data {data}"
+    ctx.evaluated()
+    (k, x) = outcome(lambda: pane.from_data(data, T, custom=custom))
+    if k != 'ok':
+        return        # (reading is C18's subject)
+    (k2, d) = outcome(lambda: pane.into_data(x, T, custom=custom))
+    if k2 != 'ok':
+        ctx.fail('into_data-total', f"handled-member:{field}", f"{ident}: x = {short(x, 120)}; into_data raised {type(d).__name__}: {str(d)[:200]}")
+        return
+    bad = non_interchange(d)
+    if bad is not None:
+        ctx.fail('interchange-only', f"handled-member:{field}", f"{ident}: into_data = {short(d, 120)}; {bad}")
+        return
+    (k3, y) = outcome(lambda: pane.from_data(d, T, custom=custom))
+    if k3 != 'ok' or y != x or d != data:
+        ctx.fail('reparse', f"handled-member:{field}", f"{ident}: written as {short(d, 120)}, read back as {short(y, 120)} ({k3})")
+
+
 def suites(tier: str) -> t.List[Suite]:
     big = tier == 'thorough'
     leaves = 8 if big else 4
@@ -281,5 +366,7 @@ def suites(tier: str) -> t.List[Suite]:
         Suite('roundtrip', check, strategy=lambda: cases(gen.all_type_specs(leaves)), examples=8000 if big else 600, budget_s=480 if big else 40, render=gen.render_case),
         Suite('init-false', check_init_false, strategy=init_false_cases, examples=200 if big else 20, budget_s=30 if big else 10,
               render=lambda c: {'layout': c[0], 'a': c[1], 'derived field first': c[2], 'rename': c[3]}),
+        Suite('handled-member', check_handled_member, cases=hm_cases, exhaustive=True, budget_s=30,
+              render=lambda c: {'handler from': c[0], 'field': c[1], 'value present': c[2]}),
         Suite('overlap-unions', check, strategy=lambda: cases(gen.overlap_union_specs()), examples=4000 if big else 450, budget_s=300 if big else 30, render=gen.render_case),
     ]
